@@ -53,11 +53,12 @@ Definition check_graph (c : graph_case) : bool :=
 Record render_case := {
   r_pre : list name;
   r_set : list (name * source);
+  r_more : list name;        (* further names passed to render(): short names reached through prefixes *)
   r_impl : list rout }.
 
 Definition model_render (c : render_case) : list rout :=
   let s := snd (add_batch (mk_env (r_pre c) []) (init []) (r_set c)) in
-  map (fun p => render (render_fuel s) (r_pre c) s (fst p)) (r_set c).
+  map (fun n => render (render_fuel s) (r_pre c) s n) (map fst (r_set c) ++ r_more c).
 
 Definition rout_agree (a b : rout) : bool :=
   match a, b with
